@@ -130,8 +130,63 @@ SliceEqClause(rec) ==
   IN IF Len(rec.b) > n THEN "too_many_items"
      ELSE IF \E j \in 1..n : bad(j) THEN "slice_differs" ELSE "ok"
 
+(***************************************************************************)
+(* rel = "mpms": the MPMS materialisation rule, as a specification.        *)
+(* rec.a is the graph before, rec.b the graph after materialize_with_mpms  *)
+(* (same node positions: the transformation changes only tags, which the   *)
+(* "same_nt" relation checks separately); rec.outs are the output          *)
+(* positions.  Documented rule: a node is materialised (tagged ImplStored) *)
+(* iff it has more than one successor and more than one MATERIALISED       *)
+(* predecessor; inputs, already stored nodes and outputs count as          *)
+(* materialised without being tagged.  Implemented refinement (modelled,   *)
+(* not idealised): a successor that is an indexing node n times larger     *)
+(* than the node counts n times.                                           *)
+(***************************************************************************)
+RECURSIVE CountIn(_, _)
+CountIn(s, x) == IF s = <<>> THEN 0 ELSE (IF Head(s) = x THEN 1 ELSE 0) + CountIn(Tail(s), x)
+
+NSucc(g, n) ==
+  LET w(k) == IF g.nodes[k].kind = "index"
+              THEN (IF SizeOf(g.nodes[n].shape) = 0 THEN 0
+                    ELSE SizeOf(g.nodes[k].shape) \div SizeOf(g.nodes[n].shape))
+              ELSE 1
+      RECURSIVE S(_)
+      S(k) == IF k > Len(g.nodes) THEN 0
+              ELSE CountIn(g.nodes[k].kidlist, n) * w(k) + S(k + 1)
+  IN S(n + 1)
+
+AlreadyMat(g, outs, n) ==
+  \/ g.nodes[n].kind = "in"
+  \/ g.nodes[n].stored
+  \/ \E q \in DOMAIN outs : outs[q] = n
+
+RECURSIVE MPMSUpTo(_, _, _)
+\* -> sequence of records [mp |-> set of materialised predecessor positions, mat |-> BOOLEAN]
+MPMSUpTo(g, outs, k) ==
+  IF k = 0 THEN <<>>
+  ELSE LET prev == MPMSUpTo(g, outs, k - 1)
+           kids == {g.nodes[k].kidlist[q] : q \in DOMAIN g.nodes[k].kidlist}
+           mps  == UNION {prev[c].mp : c \in kids}
+       IN IF AlreadyMat(g, outs, k) THEN Append(prev, [mp |-> {k}, mat |-> FALSE])
+          ELSE IF g.nodes[k].kind \in {"alias", "ncr"} THEN Append(prev, [mp |-> mps, mat |-> FALSE])
+          ELSE IF NSucc(g, k) > 1 /\ Cardinality(mps) > 1
+               THEN Append(prev, [mp |-> {k}, mat |-> TRUE])
+          ELSE Append(prev, [mp |-> mps, mat |-> FALSE])
+
+MPMSClause(rec) ==
+  LET a == rec.a b == rec.b
+      plan == MPMSUpTo(a, rec.outs, Len(a.nodes))
+  IN IF Len(a.nodes) # Len(b.nodes) THEN "node_count_changed"
+     ELSE IF \E k \in 1..Len(a.nodes) : plan[k].mat /\ ~b.nodes[k].stored
+          THEN "mpms_node_not_materialised"
+     ELSE IF \E k \in 1..Len(a.nodes) :
+               ~plan[k].mat /\ b.nodes[k].stored /\ ~a.nodes[k].stored
+          THEN "materialised_without_mpms"
+     ELSE "ok"
+
 Clause(rec) ==
   CASE rec.rel = "eq" -> EqClause(rec)
+    [] rec.rel = "mpms" -> MPMSClause(rec)
     [] rec.rel = "sliceeq" -> SliceEqClause(rec)
     [] rec.rel = "struct" -> StructClause(rec)
     [] rec.rel = "ne" -> IF EqClause(rec) = "ok" THEN "equal_but_expected_different" ELSE "ok"
